@@ -92,3 +92,20 @@ Example C02_compile_rereads_nonvacuous :
   exists ss ps, parse (L "let n = 3; T | where a == -b + 1 and c in (1, n) | join kind=leftouter (U | summarize m = max(x) by k) on k | sort by m desc | take n") = ParseOk ss
              /\ compile [] (L "let n = 3; T | where a == -b + 1 and c in (1, n) | join kind=leftouter (U | summarize m = max(x) by k) on k | sort by m desc | take n") = COk ps.
 Proof. eexists _, _. split; vm_compute; reflexivity. Qed.
+
+(** ** top N by k equals sort by k then take N (Proofs/TopFacts.v): the two spellings are split into
+    the very same subqueries, whatever was built before them (by cases on the generated attach
+    conditions), hence compile to the same text; the interpreter of Spec/PipeSem.v defines top as
+    take after sort, so C02_pipeline applies to both alike *)
+From PQL Require Import Proofs.TopFacts.
+Theorem C02_top_is_sort_then_take : forall sc ds src dst p k n b col, (ds <= List.length dst)%nat ->
+  split_op sc ds src dst (OTop p k n b col) =
+  (do d <- split_op sc ds src dst (OSort p k [col]); split_op sc ds src d (OTake p k n)).
+Proof. exact top_is_sort_then_take. Qed.
+Print Assumptions C02_top_is_sort_then_take.
+
+Theorem C02_top_spelling : forall sc src pre post p k n b col,
+  split_queries sc [] (mkTab src (pre ++ OTop p k n b col :: post)) =
+  split_queries sc [] (mkTab src (pre ++ OSort p k [col] :: OTake p k n :: post)).
+Proof. exact top_spelling. Qed.
+Print Assumptions C02_top_spelling.
